@@ -1,3 +1,396 @@
-/- stub: model `Lifecycle` (to be written) -/
+/-
+Node / monitoring-token / dead-node-cleanup protocol at system-call granularity (C07, C04 file-system part).
+
+Anchors (read + strace of the real binaries, see notes/C07-design.md):
+  iceoryx2/src/node/mod.rs            NodeBuilder::create (:1550-1673), SharedNodeState::drop (:1010-1024),
+                                      Node::list (:1159-1200), NodeState::new (:395-417),
+                                      DeadNodeView::remove_stale_resources_impl (:584-757), remove_node (:825-841)
+  iceoryx2-bb/posix/src/process_state.rs   ProcessGuardBuilder::create (:475-562), StateFiles::drop (:698-745),
+                                      ProcessMonitor::state (:982-1086), ProcessCleaner::new (:1156-1294)
+  iceoryx2-cal/src/monitoring/file_lock.rs  state mapping (:210-235), cleaner error mapping (:313-349)
+
+One process = one thread of a `Sys`; one step = one system call that changes or reads the state of one
+of the node's files.  The files of ONE node (its id is unique, names are never reused, so one inode per
+role): `ctx` `<id>.node_monitor_context`, `st` `<id>.node_monitor` (the state file, the only one
+`Node::list` looks for), `ol` `<id>.node_monitor_owner_lock`, `det` `<id>/…node.details`, the node
+directory `dir`, and tag files inside it (`tags` with final permissions, `tagsInit` still with their
+creation permissions 0600 — invisible to the static-storage listing).
+
+Permission classes: `init` = 0200 for the three token files (ProcessState::Starting is decided from
+exactly this value of the context file), 0600 for details/tags ("locked" static storage); `final` =
+anything else.  POSIX record locks: per file at most one write-lock holder (a pid); F_GETLK reports a lock
+of ANOTHER process only; closing any descriptor of a file releases the closing process's lock on it, and
+so does the death of the process (`onDeath`).  Descriptors themselves are represented by the program
+counter of their holder (each program opens and closes its descriptors at fixed places); the only effect
+of `close` on the shared state — the lock release — is modelled.  uid 0 (the sandbox): `open` never fails
+with EACCES, the monitor's first `open(ctx, O_WRONLY)` always succeeds and the decision is taken by `fstat`
+(a non-root user of the same uid gets EACCES exactly when `fstat` would show a final permission: same
+verdicts).
+
+Ghost state (never read by a step, proved in `ghost_irrelevant`): `opc` mirrors the owner's progress,
+`odead` records the owner's death.
+-/
+import Iox2.Base.Sched
+import Iox2.Base.Crash
 namespace Iox2.Lifecycle
+open Iox2.Sched
+
+inductive Perm where
+  | init | final
+deriving Repr, DecidableEq, Inhabited
+
+structure File where
+  linked : Bool := false
+  perm : Perm := .init
+  lock : Option Nat := none
+deriving Repr, DecidableEq, Inhabited
+
+structure FS where
+  ctx : File := {}
+  st : File := {}
+  ol : File := {}
+  det : File := {}
+  /-- content of the context file: the unique process id of the owner -/
+  ctxPid : Option Nat := none
+  dir : Bool := false
+  tags : Nat := 0
+  tagsInit : Nat := 0
+  /-- ghost: progress of the owner (its program counter, the tag loop 17/18 counted as 17) -/
+  opc : Nat := 0
+  /-- ghost: the owner process has died -/
+  odead : Bool := false
+deriving Repr, DecidableEq, Inhabited
+
+/-- F_GETLK: is there a write lock of another process -/
+def File.lockedByOther (f : File) (pid : Nat) : Bool :=
+  match f.lock with
+  | some p => p != pid
+  | none => false
+
+/-- close(2) of a descriptor of `f` by `pid` (also: death of `pid`): the process's lock on `f` is gone -/
+def File.closeBy (f : File) (pid : Nat) : File :=
+  if f.lock = some pid then { f with lock := none } else f
+
+inductive Role where
+  | owner | monitor | cleaner
+deriving Repr, DecidableEq, Inhabited
+
+/-- `ProcessState` of bb/posix plus the two error results of `state()` that matter here -/
+inductive PState where
+  | alive | dead | doesNotExist | starting | cleaningUp
+  | corrupted        -- ProcessMonitorStateError::CorruptedState
+  | ctxUnreadable    -- FailedToAcquireUniqueProcessIdFromContextFile
+deriving Repr, DecidableEq, Inhabited
+
+/-- `monitoring::State` of the cal layer (file_lock.rs:210-235) -/
+inductive Cal where
+  | alive | dead | doesNotExist | internalError
+deriving Repr, DecidableEq, Inhabited
+
+def calOf : PState → Cal
+  | .alive => .alive
+  | .dead => .dead
+  | .cleaningUp => .dead
+  | .doesNotExist => .doesNotExist
+  | .starting => .doesNotExist
+  | .corrupted => .internalError
+  | .ctxUnreadable => .internalError
+
+/-- what `Node::list` shows for the node (NodeState::new, node/mod.rs:395-417) -/
+inductive ListV where
+  | notListed      -- no state file in the directory listing
+  | skipped        -- State::DoesNotExist: the callback is not called
+  | alive | dead | undefined
+deriving Repr, DecidableEq, Inhabited
+
+def listOf : Cal → ListV
+  | .alive => .alive
+  | .dead => .dead
+  | .doesNotExist => .skipped
+  | .internalError => .undefined
+
+/-- result of `Node::list` + `DeadNodeView::try_remove_stale_resources` for the node -/
+inductive CRes where
+  | ok
+  | notDead            -- not listed / not reported dead: no clean-up attempted
+  | alreadyCleanedUp   -- NodeCleanupFailure::ResourcesAlreadyCleanedUp
+  | anotherInstance    -- NodeCleanupFailure::AnotherInstanceIsCleaningUpTheNode
+  | internalError      -- NodeCleanupFailure::InternalError
+  | panicStillAlive    -- fatal_panic in acquire_cleaner_lock (InstanceStillAlive)
+deriving Repr, DecidableEq, Inhabited
+
+structure Th where
+  pid : Nat
+  role : Role
+  pc : Nat := 0
+  -- owner: plan and bookkeeping
+  ntags : Nat := 0          -- tags (ports) it will still create while running
+  mtags : Nat := 0          -- tags it has created and removes again in an orderly drop
+  doDrop : Bool := false    -- drops the node in an orderly way (otherwise it runs for ever)
+  -- monitor / cleaner: registers
+  hasDet : Bool := false
+  todo : Nat := 0           -- cleaner: listed tags still to remove
+  raw : Option PState := none
+  listed : Option ListV := none
+  res : Option CRes := none
+deriving Repr, DecidableEq, Inhabited
+
+/-- program counter of a finished monitor / cleaner -/
+def pcDone : Nat := 100
+
+/-! ### `ProcessMonitor::state()` (process_state.rs:982-1086), reads only -/
+
+inductive QOut where
+  | next (q : Nat)
+  | done (v : PState)
+deriving Repr, DecidableEq
+
+/-- names of the query steps, as they appear in a system-call trace -/
+def qName : Nat → String
+  | 0 => "open ctx" | 1 => "fstat ctx" | 2 => "open ctx" | 3 => "read ctx" | 4 => "open ol"
+  | 5 => "getlk ol" | 6 => "open st" | 7 => "access st" | 8 => "getlk st" | _ => "?"
+
+def qstep (fs : FS) (pid : Nat) : Nat → QOut
+  | 0 => if fs.ctx.linked then .next 1 else .done .doesNotExist          -- open(ctx, O_WRONLY)
+  | 1 => if fs.ctx.perm = .init then .done .starting else .next 2         -- fstat: permission == 0200 ?
+  | 2 => if fs.ctx.linked then .next 3 else .done .doesNotExist          -- open(ctx, O_RDONLY)
+  | 3 => match fs.ctxPid with                                             -- read the owner's unique process id
+         | none => .done .ctxUnreadable
+         | some p => if p = pid then .done .alive else .next 4
+  | 4 => if fs.ol.linked then .next 5 else .next 7                        -- open(ol, O_WRONLY)
+  | 5 => if fs.ol.lockedByOther pid then .done .cleaningUp else .next 6   -- F_GETLK(ol)
+  | 6 => if fs.st.linked then .next 8 else .done .cleaningUp              -- open(st, O_WRONLY)
+  | 7 => if fs.st.linked then .done .corrupted else .done .cleaningUp     -- access(st, F_OK)
+  | 8 => if fs.st.lockedByOther pid then .done .alive else .done .dead    -- F_GETLK(st)
+  | _ => .done .corrupted
+
+/-! ### owner: `NodeBuilder::create` … orderly drop -/
+
+/-- progress value of an owner pc (the tag loop 17 ⇄ 18 is one phase) -/
+def phaseOf (pc : Nat) : Nat := if pc = 18 then 17 else pc
+
+/-- skips the empty loops of the owner: 17 = "running, creates tags", 19 = "drop: removes its tags",
+21 = "removes the listed details" -/
+def ownerNorm (t : Th) : Th :=
+  let t := if t.pc = 17 ∧ t.ntags = 0 ∧ t.doDrop = true then { t with pc := 19 } else t
+  let t := if t.pc = 19 ∧ t.mtags = 0 then { t with pc := 20 } else t
+  if t.pc = 21 ∧ t.hasDet = false then { t with pc := 22 } else t
+
+def ownerStep (fs : FS) (t : Th) : Option (FS × Th × String) :=
+  let p := t.pid
+  match t.pc with
+  -- create_node_details_storage (node/mod.rs:1635-1673): static storage `create`, has_ownership(false)
+  | 0 => some ({ fs with dir := true }, { t with pc := 1 }, "mkdir dir")
+  | 1 => some ({ fs with det := { fs.det with linked := true, perm := .init } }, { t with pc := 2 }, "creat det")
+  | 2 => some ({ fs with det := { fs.det with perm := .init } }, { t with pc := 3 }, "fchmod det init")
+  | 3 => some (fs, { t with pc := 4 }, "write det")
+  | 4 => some (fs, { t with pc := 5 }, "fsync det")
+  | 5 => some ({ fs with det := { fs.det with perm := .final } }, { t with pc := 6 }, "fchmod det final")
+  -- create_token → ProcessGuardBuilder::create (process_state.rs:475-562)
+  | 6 => some ({ fs with ctx := { fs.ctx with linked := true, perm := .init } }, { t with pc := 7 }, "creat ctx")
+  | 7 => some ({ fs with ctx := { fs.ctx with perm := .init } }, { t with pc := 8 }, "fchmod ctx init")
+  | 8 => some ({ fs with st := { fs.st with linked := true, perm := .init } }, { t with pc := 9 }, "creat st")
+  | 9 => some ({ fs with st := { fs.st with perm := .init } }, { t with pc := 10 }, "fchmod st init")
+  | 10 => some ({ fs with ol := { fs.ol with linked := true, perm := .init } }, { t with pc := 11 }, "creat ol")
+  | 11 => some ({ fs with ol := { fs.ol with perm := .init } }, { t with pc := 12 }, "fchmod ol init")
+  | 12 => some ({ fs with ctxPid := some p }, { t with pc := 13 }, "write ctx")
+  | 13 => if fs.st.lockedByOther p then some (fs, { t with pc := 90 }, "setlk st")   -- ContractViolation (roll-back not modelled; unreachable)
+          else some ({ fs with st := { fs.st with lock := some p } }, { t with pc := 14 }, "setlk st")
+  | 14 => some ({ fs with ol := { fs.ol with perm := .final } }, { t with pc := 15 }, "fchmod ol final")
+  | 15 => some ({ fs with st := { fs.st with perm := .final } }, { t with pc := 16 }, "fchmod st final")
+  | 16 => some ({ fs with ctx := { fs.ctx with perm := .final } }, ownerNorm { t with pc := 17 }, "fchmod ctx final")
+  -- running: port creation leaves tags (static storage `create(&[])`: created with 0600, then 0400)
+  | 17 => match t.ntags with
+          | 0 => none
+          | _ + 1 => some ({ fs with tagsInit := fs.tagsInit + 1 }, { t with pc := 18 }, "creat tag")
+  | 18 => some ({ fs with tagsInit := fs.tagsInit - 1, tags := fs.tags + 1 },
+                ownerNorm { t with pc := 17, ntags := t.ntags - 1, mtags := t.mtags + 1 }, "fchmod tag final")
+  -- orderly drop: ports first (their tags), then SharedNodeState::drop → remove_node, then the token
+  | 19 => some ({ fs with tags := fs.tags - 1 }, ownerNorm { t with pc := 19, mtags := t.mtags - 1 }, "unlink tag")
+  | 20 => some (fs, ownerNorm { t with pc := 21, hasDet := fs.det.linked && fs.det.perm == .final }, "readdir dir")
+  | 21 => some ({ fs with det := { fs.det with linked := false } }, { t with pc := 22 }, "unlink det")
+  | 22 => some ({ fs with dir := if fs.tags = 0 ∧ fs.tagsInit = 0 ∧ fs.det.linked = false then false else fs.dir },
+                { t with pc := 23 }, "rmdir dir")
+  -- StateFiles::drop (process_state.rs:698-745): state, owner_lock, context
+  | 23 => some ({ fs with st := { fs.st with perm := .final } }, { t with pc := 24 }, "fchmod st final")
+  | 24 => some ({ fs with st := { fs.st with linked := false } }, { t with pc := 25 }, "unlink st")
+  | 25 => some ({ fs with st := fs.st.closeBy p }, { t with pc := 26 }, "close st")
+  | 26 => some ({ fs with ol := { fs.ol with perm := .final } }, { t with pc := 27 }, "fchmod ol final")
+  | 27 => some ({ fs with ol := { fs.ol with linked := false } }, { t with pc := 28 }, "unlink ol")
+  | 28 => some ({ fs with ol := fs.ol.closeBy p }, { t with pc := 29 }, "close ol")
+  | 29 => some ({ fs with ctx := { fs.ctx with perm := .final } }, { t with pc := 30 }, "fchmod ctx final")
+  | 30 => some ({ fs with ctx := { fs.ctx with linked := false } }, { t with pc := 31 }, "unlink ctx")
+  | 31 => some ({ fs with ctx := fs.ctx.closeBy p }, { t with pc := 32 }, "close ctx")
+  | 32 => some ({ fs with det := fs.det.closeBy p }, { t with pc := 33 }, "close det")
+  | _ => none
+
+/-! ### monitor: `Node::list` for the node -/
+
+def monitorStep (fs : FS) (t : Th) : Option (FS × Th × String) :=
+  match t.pc with
+  -- FileLockMonitoring::list_cfg: the node is visible iff its state file is in the directory
+  | 0 => if fs.st.linked then some (fs, { t with pc := 1 }, "readdir nodes")
+         else some (fs, { t with pc := pcDone, listed := some .notListed }, "readdir nodes")
+  -- get_node_details: static storage open with timeout 0 (a locked = 0600 file counts as unreadable)
+  | 1 => some (fs, { t with pc := 2, hasDet := fs.det.linked && fs.det.perm == .final }, "open det")
+  | pc => if 2 ≤ pc ∧ pc ≤ 10 then
+            match qstep fs t.pid (pc - 2) with
+            | .next q => some (fs, { t with pc := q + 2 }, qName (pc - 2))
+            | .done v => some (fs, { t with pc := pcDone, raw := some v, listed := some (listOf (calOf v)) }, qName (pc - 2))
+          else none
+
+/-! ### cleaner: `Node::list`, then `DeadNodeView::remove_stale_resources_impl` if reported dead -/
+
+/-- ProcessCleaner::new, first part: the state must be `Dead` (process_state.rs:1165-1193, cal + node mapping) -/
+def cleanerRefusal : PState → Option CRes
+  | .dead => none
+  | .alive => some .panicStillAlive
+  | .doesNotExist => some .alreadyCleanedUp
+  | .cleaningUp => some .anotherInstance
+  | .starting => some .internalError
+  | .corrupted => some .internalError
+  | .ctxUnreadable => some .internalError
+
+/-- skips the empty loops of the cleaner: 27 = remove the listed tags, 29 = remove the listed details -/
+def cleanerNorm (t : Th) : Th :=
+  let t := if t.pc = 27 ∧ t.todo = 0 then { t with pc := 28 } else t
+  if t.pc = 29 ∧ t.hasDet = false then { t with pc := 30 } else t
+
+def cleanerStep (fs : FS) (t : Th) : Option (FS × Th × String) :=
+  let p := t.pid
+  let fin (r : CRes) (n : String) : Option (FS × Th × String) := some (fs, { t with pc := pcDone, res := some r }, n)
+  match t.pc with
+  | 0 => if fs.st.linked then some (fs, { t with pc := 1 }, "readdir nodes")
+         else some (fs, { t with pc := pcDone, listed := some .notListed, res := some .notDead }, "readdir nodes")
+  | 1 => some (fs, { t with pc := 2, hasDet := fs.det.linked && fs.det.perm == .final }, "open det")
+  -- acquire_cleaner_lock → ProcessCleaner::new (process_state.rs:1195-1294)
+  | 20 => if fs.ctx.linked then some (fs, { t with pc := 21 }, "open ctx") else fin .alreadyCleanedUp "open ctx"
+  | 21 => if fs.ol.linked then some (fs, { t with pc := 22 }, "open ol") else fin .anotherInstance "open ol"
+  | 22 => if fs.st.linked then some (fs, { t with pc := 23 }, "open st") else fin .anotherInstance "open st"
+  | 23 => if fs.st.lockedByOther p then fin .panicStillAlive "getlk st" else some (fs, { t with pc := 24 }, "getlk st")
+  | 24 => if fs.ol.lockedByOther p then
+            (if fs.ol.linked then fin .anotherInstance "setlk ol" else fin .alreadyCleanedUp "setlk ol")   -- EAGAIN; nlink == 0 → DoesNotExist
+          else some ({ fs with ol := { fs.ol with lock := some p } }, { t with pc := 25 }, "setlk ol")
+  -- service tags (none modelled), port tags: listing = the tags with final permissions
+  | 25 => some (fs, { t with pc := 26 }, "readdir dir")
+  | 26 => some (fs, cleanerNorm { t with pc := 27, todo := fs.tags }, "readdir dir")
+  | 27 => some ({ fs with tags := fs.tags - 1 }, cleanerNorm { t with pc := 27, todo := t.todo - 1 }, "unlink tag")
+  -- remove_node: listed details (final permission only), directory
+  | 28 => some (fs, cleanerNorm { t with pc := 29, hasDet := fs.det.linked && fs.det.perm == .final }, "readdir dir")
+  | 29 => some ({ fs with det := { fs.det with linked := false } }, { t with pc := 30 }, "unlink det")
+  | 30 => if fs.dir = false then some (fs, { t with pc := 31 }, "rmdir dir")                 -- ENOENT tolerated
+          else if fs.tags = 0 ∧ fs.tagsInit = 0 ∧ fs.det.linked = false then some ({ fs with dir := false }, { t with pc := 31 }, "rmdir dir")
+          else some (fs, { t with pc := 40 }, "rmdir dir")                                     -- ENOTEMPTY → cleaner.abandon()
+  -- drop(cleaner): StateFiles::drop
+  | 31 => some ({ fs with st := { fs.st with perm := .final } }, { t with pc := 32 }, "fchmod st final")
+  | 32 => some ({ fs with st := { fs.st with linked := false } }, { t with pc := 33 }, "unlink st")
+  | 33 => some ({ fs with st := fs.st.closeBy p }, { t with pc := 34 }, "close st")
+  | 34 => some ({ fs with ol := { fs.ol with perm := .final } }, { t with pc := 35 }, "fchmod ol final")
+  | 35 => some ({ fs with ol := { fs.ol with linked := false } }, { t with pc := 36 }, "unlink ol")
+  | 36 => some ({ fs with ol := fs.ol.closeBy p }, { t with pc := 37 }, "close ol")
+  | 37 => some ({ fs with ctx := { fs.ctx with perm := .final } }, { t with pc := 38 }, "fchmod ctx final")
+  | 38 => some ({ fs with ctx := { fs.ctx with linked := false } }, { t with pc := 39 }, "unlink ctx")
+  | 39 => some ({ fs with ctx := fs.ctx.closeBy p }, { t with pc := pcDone, res := some .ok }, "close ctx")
+  -- abandon (process_state.rs:672-696): close the three descriptors, remove nothing
+  | 40 => some ({ fs with st := fs.st.closeBy p }, { t with pc := 41 }, "close st")
+  | 41 => some ({ fs with ol := fs.ol.closeBy p }, { t with pc := 42 }, "close ol")
+  | 42 => some ({ fs with ctx := fs.ctx.closeBy p }, { t with pc := pcDone, res := some .internalError }, "close ctx")
+  | pc =>
+    if 2 ≤ pc ∧ pc ≤ 10 then          -- Node::list → NodeState::new → state()
+      match qstep fs p (pc - 2) with
+      | .next q => some (fs, { t with pc := q + 2 }, qName (pc - 2))
+      | .done v =>
+        if calOf v = .dead then some (fs, { t with pc := 11, raw := some v, listed := some .dead }, qName (pc - 2))
+        else some (fs, { t with pc := pcDone, raw := some v, listed := some (listOf (calOf v)), res := some .notDead }, qName (pc - 2))
+    else if 11 ≤ pc ∧ pc ≤ 19 then    -- ProcessCleaner::new → state()
+      match qstep fs p (pc - 11) with
+      | .next q => some (fs, { t with pc := q + 11 }, qName (pc - 11))
+      | .done v =>
+        match cleanerRefusal v with
+        | none => some (fs, { t with pc := 20, raw := some v }, qName (pc - 11))
+        | some r => some (fs, { t with pc := pcDone, raw := some v, res := some r }, qName (pc - 11))
+    else none
+
+/-! ### the system -/
+
+def stepL (fs : FS) (t : Th) : Option (FS × Th × String) :=
+  match t.role with
+  | .owner => (ownerStep fs t).map fun r => ({ r.1 with opc := phaseOf r.2.1.pc }, r.2.1, r.2.2)
+  | .monitor => monitorStep fs t
+  | .cleaner => cleanerStep fs t
+
+def sys : Sys FS Th :=
+  { step := fun fs t => (stepL fs t).map fun r => (r.1, r.2.1, [Ev.cell r.2.2]) }
+
+/-- death of a process: the kernel closes its descriptors, i.e. all its record locks are gone -/
+def onDeath (fs : FS) (t : Th) : FS :=
+  { fs with ctx := fs.ctx.closeBy t.pid, st := fs.st.closeBy t.pid, ol := fs.ol.closeBy t.pid,
+            det := fs.det.closeBy t.pid, odead := fs.odead || (t.role == .owner) }
+
+/-- processes that may die at any step -/
+def csys : Sys FS (CTh Th) := sys.withCrash onDeath
+
+/-! ### one process running alone (the survivor of the kill-point experiments) -/
+
+def runSolo : Nat → FS → Th → FS × Th
+  | 0, fs, t => (fs, t)
+  | n + 1, fs, t =>
+    match stepL fs t with
+    | none => (fs, t)
+    | some (fs', t', _) => runSolo n fs' t'
+
+/-- the step names a process running alone goes through -/
+def traceSolo : Nat → FS → Th → List String
+  | 0, _, _ => []
+  | n + 1, fs, t =>
+    match stepL fs t with
+    | none => []
+    | some (fs', t', s) => s :: traceSolo n fs' t'
+
+/-- more steps than any program has (for a bounded number of tags) -/
+def fuel : Nat := 200
+
+/-- `k` steps of a process, then it is killed -/
+def runKill (k : Nat) (fs : FS) (t : Th) : FS :=
+  let r := runSolo k fs t
+  onDeath r.1 r.2
+
+/-- a whole `ProcessMonitor::state()` query of process `pid` running alone -/
+def querySolo (fs : FS) (pid : Nat) : Nat → Nat → PState
+  | 0, _ => .corrupted
+  | n + 1, q => match qstep fs pid q with
+    | .next q' => querySolo fs pid n q'
+    | .done v => v
+
+/-- roles of the files that exist -/
+def leftover (fs : FS) : List String :=
+  (if fs.ctx.linked then ["ctx"] else []) ++ (if fs.st.linked then ["st"] else []) ++
+  (if fs.ol.linked then ["ol"] else []) ++ (if fs.det.linked then ["det"] else []) ++
+  (if fs.dir then ["dir"] else []) ++ (if fs.tags + fs.tagsInit > 0 then ["tag"] else [])
+
+/-- nothing of the node is left -/
+def Clean (fs : FS) : Prop :=
+  fs.ctx.linked = false ∧ fs.st.linked = false ∧ fs.ol.linked = false ∧ fs.det.linked = false ∧
+  fs.dir = false ∧ fs.tags = 0 ∧ fs.tagsInit = 0
+
+instance (fs : FS) : Decidable (Clean fs) := by unfold Clean; infer_instance
+
+def mkOwner (ntags : Nat) (doDrop : Bool) : Th := { pid := 0, role := .owner, ntags := ntags, doDrop := doDrop }
+def mkMonitor (pid : Nat) : Th := { pid := pid, role := .monitor }
+def mkCleaner (pid : Nat) : Th := { pid := pid, role := .cleaner }
+
+/-- survivor's view after a kill: `Node::list` verdict, raw `ProcessState` (direct query), then a complete
+clean-up attempt by another survivor, and what is left afterwards -/
+structure Survey where
+  listed : Option ListV
+  raw : PState
+  clean : Option CRes
+  left : List String
+deriving Repr, DecidableEq
+
+def survey (fs : FS) : Survey :=
+  let m := runSolo fuel fs (mkMonitor 1)
+  let c := runSolo fuel fs (mkCleaner 2)
+  { listed := m.2.listed, raw := querySolo fs 1 20 0, clean := c.2.res, left := leftover c.1 }
+
 end Iox2.Lifecycle
